@@ -24,8 +24,8 @@ def programs(ctx):
         for t2 in alltypes:
             for u1 in by_type[t1][:2]:
                 for u2 in by_type[t2][-2:]:
-                    p.make(1, t1, F(3, 2), u1, 'dec')
-                    p.make(2, t2, F(3, 2) if k % 3 else F(-7, 4), u2, 'frac' if k % 2 else 'dec')
+                    p.make(1, t1, F(3, 2) if k % 5 else F(0), u1, 'dec')
+                    p.make(2, t2, [F(3, 2), F(-7, 4), F(0), F(3, 2)][k % 4], u2, 'frac' if k % 2 else 'dec')
                     k += 1
                     p.bin('Add', 1, 2, 3)
                     p.bin('Sub', 1, 2, 3)
